@@ -42,12 +42,8 @@ const genesisUnix = 1700000000
 
 func MakeGenesis(tmp string) *Genesis {
 	a := newRawApp(dbm.NewMemDB(), tmp, true)
-	gs, valSet, _, _ := elysapp.GenesisStateWithValSet(a)
-	bz, err := json.Marshal(gs)
-	if err != nil {
-		panic(err)
-	}
-	return &Genesis{StateBytes: bz, ValHash: valSet.Hash(), Time: time.Unix(genesisUnix, 0).UTC()}
+	bz, valHash := deterministicGenesis(a)
+	return &Genesis{StateBytes: bz, ValHash: valHash, Time: time.Unix(genesisUnix, 0).UTC()}
 }
 
 func newRawApp(db dbm.DB, tmp string, load bool) *elysapp.ElysApp {
